@@ -6,6 +6,7 @@
   the first occurrence of every label as the base row and nests all records of the label.
 -/
 import NPModel.Refine.PackFlat
+import NPModel.Refine.JoinRows
 import NPModel.Refine.Struct
 import NPModel.Spec.Frame
 namespace NP.C09
@@ -48,5 +49,65 @@ theorem first_occurrence_kept (seen : List Label) (l : Label) (ls : List Label) 
 
 /-- non-vacuity: labels `[b, a, b]`, the packed row of `b` holds records 0 and 2 in that order -/
 example : valsOfLabel (Label.str "b") [Label.str "b", Label.str "a", Label.str "b"] [0, 1, 2] = [0, 2] := by decide
+
+/-! ### end to end on the implementation model -/
+
+/-- **`pack_flat` end to end** (`NP.packFlat`, the model of `pack_flat` checked against the code):
+    for ANY flat table with at least one column — any labels, in any order, repeated or not — the
+    call succeeds, the packed index is `packedKeys` (the labels that occur, each once, ascending:
+    `packed_keys_are_the_labels`), the packed column is validated storage with the table's columns
+    as fields, and the row of label `k` is `packedRow df k`: for every field at once, the cells of
+    exactly the records that carried `k`, in their original order. -/
+theorem pack_flat_end_to_end [Inhabited α] (df : FlatDF α) (hne : df.cols ≠ []) :
+    ∃ packed, packFlat df = .ok packed ∧ packed.index = packedKeys df.index ∧
+      packed.col.WF = true ∧ packed.col.aligned ∧
+      packed.col.ty = df.cols.map (fun c => (c.1, c.2.1)) ∧
+      packed.col.rows = (packedKeys df.index).map (packedRow df) :=
+  packFlat_spec df hne
+
+/-- the packed index lists exactly the labels of the flat table, each once, strictly ascending;
+    and a label has records iff it occurs -/
+theorem packed_keys_are_the_labels (index : List Label) :
+    (∀ l, l ∈ packedKeys index ↔ l ∈ index) ∧
+    (packedKeys index).Pairwise (fun a b => a.le b = true ∧ a ≠ b) ∧
+    (∀ l, recordsOf index l = [] ↔ l ∉ index) :=
+  ⟨mem_packedKeys index, packedKeys_strict index, recordsOf_eq_nil_iff index⟩
+
+/-- **`add_nested` (the default left join) end to end** (`NP.NFrame.addNested`): for every
+    consistent frame and ANY flat table with at least one column, the call succeeds; the frame
+    keeps its index and the content of every column it had (no base row multiplied, dropped or
+    reordered); and row `i` of the new nested column is MISSING when no flat record carries the
+    label of row `i`, and otherwise holds — for every field at once — the cells of exactly the
+    flat records that carry that label, in their original relative order.  Flat records whose
+    label is not in the frame appear nowhere. -/
+theorem add_nested_left_end_to_end [Inhabited α] (F : NFrame α) (hF : F.Consistent) (flat : FlatDF α)
+    (hne : flat.cols ≠ []) (name : String) (na : α) :
+    ∃ cols' col, F.addNested flat name .left na =
+        .ok (NFrame.setCol { index := F.index, cols := cols' } name (.nest col)) ∧
+      All2 (fun p p' => p'.1 = p.1 ∧ ColData.same p.2 p'.2) F.cols cols' ∧
+      col.rows = F.index.map fun l => if l ∈ flat.index then packedRow flat l else none :=
+  addNested_left_rows F hF flat hne name na
+
+/-- **`from_flat` end to end** (`NP.NFrame.fromFlat`): one row per first occurrence of a label,
+    the base columns hold the cells of those first occurrences, and EVERY row of the nested
+    column is present and holds the cells of exactly the records carrying the row's label, in
+    their original order. -/
+theorem from_flat_end_to_end [Inhabited α] (index : List Label) (base nested : List (String × String × List α))
+    (hb : ∀ c ∈ base, c.2.2.length = index.length) (hne : nested ≠ []) (name : String) (na : α) :
+    ∃ cols' col, NFrame.fromFlat index base nested name na =
+        .ok (NFrame.setCol { index := firstLabels index, cols := cols' } name (.nest col)) ∧
+      All2 (fun p p' => p'.1 = p.1 ∧ ColData.same p.2 p'.2)
+        (base.map fun c => (c.1, ColData.base c.2.1 (filterBy ((duplicatedFirst index).map (!·)) c.2.2))) cols' ∧
+      col.rows = (firstLabels index).map (packedRow { index := index, cols := nested }) :=
+  fromFlat_rows index base nested hb hne name na
+
+/-- non-vacuity: a consistent frame exists (labels `[b, c]`, one base column), and against the flat
+    table labelled `[b, a, b]` the row of `b` holds records 0 and 2, the row of `c` is missing -/
+example : (⟨[.str "b", .str "c"], [("x", .base "int64" [1, 2])]⟩ : NFrame Nat).Consistent :=
+  ⟨by intro n t v h; simp at h; obtain ⟨_, _, rfl⟩ := h; rfl, by intro n c h; simp at h⟩
+example : (([Label.str "b", .str "c"]).map fun l =>
+      if l ∈ [Label.str "b", .str "a", .str "b"] then
+        packedRow (⟨[.str "b", .str "a", .str "b"], [("t", "int64", [10, 11, 12])]⟩ : FlatDF Nat) l else none)
+    = [some [("t", [10, 12])], none] := by decide
 
 end NP.C09
